@@ -100,6 +100,8 @@ def init_for(ctx: Ctx, ts: TypeSpec, dim):
         return None
     if dim:
         if dim == "(3)":
+            if ts.base in ("integer", "real") and ts.kind is None and rng.random() < 0.25:
+                return f"[{ts.base} :: {v}, {v}, {v}]"  # array constructor with a type-spec (a `::` inside the initial value)
             return rng.choice([f"[{v}, {v}, {v}]", f"(/ {v}, {v}, {v} /)"]) if ts.base != "character" else None
         if dim == "(2,2)":
             return None
